@@ -4,28 +4,34 @@ CFG = {
     "id": "C18", "harness": "c18",
     "check_vo": "theories/Check/C18.vo", "prop_vo": "theories/Properties/C18.vo",
     "prop_file": "theories/Properties/C18.v",
-    "theory_files": ["theories/Gen/Closed.v", "theories/Gen/ClosedProofs.v", "theories/Gen/Sphere.v",
-                     "theories/Gen/Hemisphere.v", "theories/Gen/Cylinder.v", "theories/Gen/Cube.v",
-                     "theories/Gen/GenProofs.v"],
+    "theory_files": ["theories/Gen/Closed.v", "theories/Gen/ClosedProofs.v", "theories/Gen/FamilyProofs.v",
+                     "theories/Gen/Sphere.v", "theories/Gen/Hemisphere.v", "theories/Gen/Cylinder.v",
+                     "theories/Gen/Cube.v", "theories/Gen/CylinderProofs.v", "theories/Gen/SphereProofs.v",
+                     "theories/Gen/CubeProofs.v", "theories/Gen/GenProofs.v"],
     "level_text": "Coq theorems about Gallina copies of the index-generating loops of the solid primitives (UV sphere "
                   "welded/unwelded, hemisphere, capped cylinder, welded box table, six-quad box) and their vertex "
-                  "coincidence classes: well-formed indices for all counts, closed + consistently oriented surface "
-                  "(every directed edge once, its reverse once) by a verified checker for all small counts and "
-                  "parametrically where proved, exact volume/outwardness/normals of the boxes; the models are tied to "
+                  "coincidence classes: well-formed indices and closed + consistently oriented surface "
+                  "(every directed edge once, its reverse once) proved parametrically for EVERY rows >= 2, columns >= 3, "
+                  "sides >= 3 (explicit twin involution on edge slots; no size bound), exact volume w*h*d, outward faces "
+                  "and outward vertex normals of both boxes over the reals; the models are tied to "
                   "the Go constructors on every run (index lists and position-coincidence classes compared exactly, "
                   "closedness re-decided on the implementation's own output by the verified checker)",
-    "level_note": "Trusted: Coq kernel + vm_compute; hand-written models tied by differential correspondence; trigonometric "
-                  "positions (sphere, cylinder, hemisphere) are float arithmetic: volume, outwardness, vertex normals and "
-                  "convergence are checked numerically by the harness against closed forms computed from the parameters",
+    "level_note": "Trusted: Coq kernel + vm_compute (the case evaluator also uses the kernel's 63-bit machine integers for "
+                  "list fingerprints); stdlib real-number axioms under the box theorems; hand-written models tied by "
+                  "differential correspondence; trigonometric positions (sphere, cylinder, hemisphere) are float "
+                  "arithmetic: their volume (= inscribed polyhedron, closed form), outwardness, vertex normals and "
+                  "convergence to the analytic volume are NOT proved but checked numerically by the harness on every run",
     "technique": "Coq proof (verified edge-pairing checker, involution on edge slots, exact polynomial identities) + "
                  "vm_compute correspondence check + float oracle",
     "design_ref": "DESIGN.md §4 C18",
     "n_quick": 60, "n_thorough": 600,
-    "rule": "every (rows, cols) in 2..24 x 3..24 for UVSphere, UVSphereUnwelded, Hemisphere.UV (full index + class lists "
-            "up to 12x12 in quick / 24x24 in thorough, two 31-bit hashes of both lists above), every cylinder side count "
+    "rule": "(rows, cols) in 2..24 x 3..24 for UVSphere, UVSphereUnwelded, Hemisphere.UV: thorough = every pair with full "
+            "index + class lists; quick = every pair <= 12x12 with full lists plus one residue class of rows+cols mod 4 "
+            "(chosen by the seed) and the corners of the larger pairs as two 63-bit fingerprints of both lists; every cylinder side count "
             "3..64 with all 8 UV-option combinations, both boxes with none/default/random UVs on even-integer (exact) and "
             "random positive extents, rejected parameter pairs, volume-convergence sequences, plus n sampled cases "
-            "(counts up to 160x160 / 3000 sides, extreme aspect ratios, log-uniform sizes 1e-3..1e3); distinct by "
+            "(counts up to 80x80 / 1600 sides in quick, 160x160 / 3200 sides in thorough, extreme aspect ratios, log-uniform sizes 1e-3..1e3; "
+            "Cone (a lateral surface without base, not one of the solids) is only recorded; distinct by "
             "parameters; non-trivial = the constructor returned at least one triangle",
     "trusted": ["positions of sphere/cylinder/hemisphere are math.Sin/Cos values: signed volume vs the inscribed "
                 "polyhedron's closed-form volume (1e-9 relative), face orientation against an interior point, vertex "
